@@ -43,7 +43,7 @@ class FakeLifetime:
 
 
 class Setup:
-    def __init__(self, W, kind, n_extra, solver="manual", positive_diag=True, concrete_extra=None, preset=None, tag="", lifetime_spec=None, zero_diag_label=None):
+    def __init__(self, W, kind, n_extra, solver="manual", positive_diag=True, concrete_extra=None, preset=None, tag="", lifetime_spec=None, zero_diag_label=None, int_ok=False):
         import flodym.stocks as st
         from flodym.flodym_arrays import StockArray
         from .dimensions import mk_set
@@ -162,6 +162,18 @@ class Setup:
                 return a
 
             stock, inflow, outflow = mkc("stock"), mkc("inflow"), mkc("outflow")
+            if int_ok and getattr(W, "int_driver", False) and kind in ("inflow", "stock") and not preset:
+                # the driver holds whole numbers in an integer-typed array (e.g. read from a table of counts)
+                drv = inflow if kind == "inflow" else stock
+                iv = np.round(np.array(drv.values) * 4).astype(np.int64)
+                if kind == "stock":
+                    drv = StockArray(dims=ds, values=iv, name="stock")
+                    stock = drv
+                else:
+                    drv = StockArray(dims=ds, values=iv, name="inflow")
+                    inflow = drv
+                W.inputs[kind + "_values"] = iv.tolist()
+                W.inputs["driver_dtype"] = "int64"
             if getattr(W, "nonneg_inflow", False):
                 inflow.values[...] = np.abs(inflow.values)
             args = dict(dims=ds, stock=stock, inflow=inflow, outflow=outflow, name="s", time_letter="t")
@@ -429,7 +441,7 @@ def _balance_at(W, S, name, inflow, sbc, obc, stock, outflow, t, r):
     stubs=["flodym.lifetime_models.LifetimeModel.sf", "flodym.lifetime_models.LifetimeModel.pdf", "flodym.lifetime_models.UnevenTimeDim.interval_lengths"],
 )
 def u_inflow_driven(W, sk):
-    S = Setup(W, "inflow", sk["extra"])
+    S = Setup(W, "inflow", sk["extra"], int_ok=True)
     s = S.s
     inflow0 = S.rd(s.inflow.values.copy())
     snaps = SL.snapshot(W, [s.inflow])
@@ -636,7 +648,7 @@ def prove_system_solved(W, S, name, stock0):
     note="manual solver: loop invariant over a symbolic number of rows; lapack solver: contract of solve_triangular assumed, loop over the non-time indices unrolled for concrete extra sizes (bounded: 1-2 items per extra dimension); precondition of C10: sf[c,c] > 0",
 )
 def u_stock_driven(W, sk):
-    S = Setup(W, "stock", sk["extra"], solver=sk["solver"], concrete_extra=sk.get("sizes") if (sk["solver"] == "lapack" and sk.get("sizes") is not None) else None)
+    S = Setup(W, "stock", sk["extra"], solver=sk["solver"], concrete_extra=sk.get("sizes") if (sk["solver"] == "lapack" and sk.get("sizes") is not None) else None, int_ok=True)
     s = S.s
     snaps = SL.snapshot(W, [s.stock])
     out, stock0, solution = run_stock_driven(W, S)
